@@ -532,7 +532,7 @@ def run(tier, seed):
     stats["problem_aspects"] = aspects
     stats["layouts"] = len(layouts(tier))
     stats["chain_shapes"] = len(chain_shapes(tier))
-    stats["sample"] = {"id": rcases[len(rcases) // 2][0], "src": rcases[len(rcases) // 2][1]["src"][:500]}
+    stats["samples"] = [{"id": rcases[k][0], "src": rcases[k][1]["src"][:500]} for k in (len(rcases) // 2, len(rcases) // 7)] + [{"id": scases[len(scases) // 2][0], "src": scases[len(scases) // 2][1]["src"][:300]}]
     stats["rule"] = ("runtime: %d faults x %d fault contexts x %d innermost frame kinds, and %d chain shapes (depth up to %d, 8 frame kinds, frames spread over 1-3 modules) x %d layouts (4 bases x LF/CRLF/CR/LS x 4 comment modes x wide characters before the range x multi-line template before the fault x tab/space; quick = a greedy pairwise cover of the six layout dimensions); syntax: %d faults x 3 prefixes x 4 enclosing constructs x main/module x layouts. Oracle: positions inside generator-computed ranges (code points, 1-based), exact frame list with names."
                      % (len(FAULTS), len(CONTEXTS), len(KINDS), len(chain_shapes(tier)), 12 if tier != "quick" else 5, len(layouts(tier)), len(SYNTAX)))
     chk.coverage = stats
